@@ -49,6 +49,33 @@ def build():
         raise GenError("LabelType::parse: expected two parse_u8()? calls")
     one(r"_\s*=>\s*Err\(\s*ParseError::Form\(\s*FormError::new\(\s*\"invalid label type\"", lt, "LabelType::parse bad label arm")
 
+    # --- LabelType::peek, split_first / parent, as_flat_slice, next_back
+    pk = fn_body(ps, "peek", after="impl LabelType")
+    label_ranges(pk, "LabelType::peek", defs, "pk_", False)
+    one(r"parser\.peek\(\s*1\s*\)\?\[0\]", pk, "peek first octet")
+    one(r"parser\.peek\(\s*2\s*\)\?\[1\]", pk, "peek second octet")
+    roots = []
+    plus = []
+    for fn in ("split_first", "parent"):
+        b = fn_body(ps, fn, after="impl<Octs: AsRef<[u8]>> ParsedName<Octs>")
+        m = one(r"if\s+self\.name_len\s*==\s*(\d+)\s*\{\s*return\s+(?:None|false)\s*;", b, fn + " root test")
+        roots.append(int(m.group(1)))
+        m = one(r"LabelType::Normal\(\s*label_len\s*\)\s*=>\s*break\s+label_len\s*\+\s*(\d+)\s*,", b, fn + " label length")
+        plus.append(int(m.group(1)))
+        one(r"LabelType::Normal\(\s*0\s*\)\s*=>\s*\{\s*unreachable!\(\)", b, fn + " unreachable arm")
+        one(r"LabelType::peek\(\s*&parser\s*\)\.unwrap\(\)", b, fn + " peek unwrap")
+        one(r"parser\.seek\(\s*pos\s*\)\.unwrap\(\)", b, fn + " seek unwrap")
+    if len(set(roots)) != 1 or len(set(plus)) != 1:
+        raise GenError("split_first and parent disagree on constants")
+    defs.append(("name_root_len", "N", N(roots[0])))
+    defs.append(("first_label_plus", "N", N(plus[0])))
+    fs = fn_body(ps, "as_flat_slice", after="impl<Octs: AsRef<[u8]>> ToName for ParsedName<Octs>")
+    one(r"if\s+self\.compressed\s*\{\s*None\s*\}\s*else\s*\{\s*Some\(\s*&self\.octets\.as_ref\(\)\s*\[\s*self\.pos\s*\.\.\s*self\.pos\s*\+\s*usize::from\(\s*self\.name_len\s*\)\s*\]",
+        fs, "as_flat_slice range")
+    nb = fn_body(ps, "next_back", after="impl<'a> DoubleEndedIterator for ParsedNameIter<'a>")
+    one(r"if\s+tmp\.len\s*==\s*0\s*\{\s*break\s+label\s*;", nb, "next_back stop test")
+    one(r"self\.len\s*-=\s*label\.compose_len\(\)\s*;", nb, "next_back len decrement")
+
     # --- ParsedName::parse_ref
     pr = fn_body(ps, "parse_ref", after="impl<'a, Octs: AsRef<[u8]> + ?Sized> ParsedName<&'a Octs>")
     ms = re.findall(r"if\s+name_len\s*(>=|>|==|<=|<)\s*" + NUM + r"\s*\{\s*return\s+Err\(\s*ParsedDnameError::LongName", pr)
@@ -160,6 +187,18 @@ def build():
     k = len(re.findall(r"self\.count\s*=\s*Ok\(\s*count\s*-\s*1\s*\)\s*;", ms_))
     if k != 3:
         raise GenError("message.rs: expected three count decrements, found %d" % k)
+
+    # --- XFR first-message dispatch
+    xs = strip_comments(read("src/net/xfr/protocol/interpreter.rs"))
+    cr = fn_body(xs, "check_response")
+    one(r"if\s+resp\.is_error\(\)\s*\|\|\s*!resp_header\.qr\(\)\s*\|\|\s*resp_header\.opcode\(\)\s*!=\s*Opcode::QUERY\s*\|\|\s*resp_header\.tc\(\)\s*\|\|\s*resp_counts\.ancount\(\)\s*==\s*0\s*\|\|\s*resp_counts\.nscount\(\)\s*!=\s*0\s*\{\s*return\s+Err\(\s*Error::NotValidXfrResponse",
+        cr, "check_response header conditions")
+    one(r"\(\s*first_message\s*&&\s*qdcount\s*!=\s*1\s*\)\s*\|\|\s*\(\s*!first_message\s*&&\s*qdcount\s*>\s*1\s*\)", cr, "check_response qdcount")
+    inn = fn_body(xs, "new", after="impl Inner")
+    one(r"Some\(\s*Rtype::AXFR\s*\)\s*=>\s*XfrType::Axfr\s*,\s*Some\(\s*Rtype::IXFR\s*\)\s*=>\s*XfrType::Ixfr\s*,\s*_\s*=>\s*return\s+Err\(\s*Error::NotValidXfrResponse", inn, "Inner::new qtype dispatch")
+    one(r"let\s+Some\(\s*Ok\(\s*record\s*\)\s*\)\s*=\s*records\.next\(\)\s*else\s*\{\s*return\s+Err\(\s*Error::Malformed", inn, "Inner::new first record")
+    one(r"let\s+ZoneRecordData::Soa\(\s*soa\s*\)\s*=\s*record\.into_data\(\)\s*else\s*\{\s*return\s+Err\(\s*Error::NotValidXfrResponse", inn, "Inner::new SOA test")
+    defs.append(("xfr_dispatch_shape", "bool", "true"))
 
     # --- record.rs: fixed part skipped by parse_rdlen
     rs_ = strip_comments(read("src/base/record.rs"))
